@@ -22,6 +22,7 @@ def run_meta(c, spec):
 
 def run(c, props, spec, meta_spec=None):
     c.proofs(props, clean=(c.tier == "thorough"))
+    c.translate(["TieSched"])  # T1: the atomic operations on the state word, extracted from the source, are the LTS's transitions
     quick = c.tier == "quick"
     corpus = os.path.join(vlib.VERIF, "corpus", "sched")
     runs = []
